@@ -104,6 +104,9 @@ func sizeArg(k int) *int {
 // compare checks a result against the specification's expectation. keys[p] is the node key of position p.
 func compare(v Vec, o Out, keys []string, cursorOf func(int) string) string {
 	e := v.Exp
+	if strings.HasPrefix(o.ErrMsg, "CRASHED") {
+		return "the code panicked: " + o.ErrMsg
+	}
 	if e.Err {
 		if !o.Err {
 			return "spec: request must be rejected; code returned a page"
@@ -610,6 +613,18 @@ func Run(args []string) {
 		fixtures[n] = makeFixture(n)
 	}
 	dl := directLists()
+	// a panic of the code under test is an outcome ("crashed"), not the end of the driver
+	for i := range dl {
+		inner := dl[i].call
+		dl[i].call = func(f fixture, in models.ConnectionInput) (o Out) {
+			defer func() {
+				if p := recover(); p != nil {
+					o = Out{Err: false, ErrMsg: fmt.Sprintf("CRASHED: %v", p), Total: -1}
+				}
+			}()
+			return inner(f, in)
+		}
+	}
 	hx.Parallel(len(idx), 0, func(j int) {
 		v := vecs[idx[j]]
 		f := fixtures[v.N]
